@@ -173,7 +173,8 @@ class Emu:
             return
         if base in ("roundss", "roundps") and ops[-1].kind == "imm":
             k = self.imm(ops[-1].text)
-            rnd = {1: sp.floor, 2: sp.ceiling}.get((k or 0) & 7) if k is not None else None
+            rnd = {1: sp.floor, 2: sp.ceiling, 3: lambda q_: sp.Piecewise((sp.floor(q_), q_ >= 0), (sp.ceiling(q_), True)),
+                   0: sp.Function("round_to_nearest_even")}.get((k or 0) & 7) if k is not None else None
             src = self.get(ops[-2])
             if base == "roundps":
                 self.put(d, [None if (rnd is None or _as_float(q) is None) else rnd(_as_float(q)) for q in src], vex)
